@@ -2,7 +2,7 @@
 
 spec -> code : spec/stmts/Statements.tla is a small-step machine that appends one statement to a straight-line
                program and executes it (state <<pc, prog, env, ode, dep, vals>>); TLC explores every bounded program
-               (and random longer ones with -simulate), proves the design theorems T0..T7 about the transcribed
+               (and a seed-chosen random subtree of longer ones), proves the design theorems T0..T7 about the transcribed
                algorithms of pharmpy on each, and prints a sample of the programs with the REFERENCE results
                (values of all symbols, dependency bounds, admissible removal sets, reassigned / substituted programs,
                used leaves).  This driver builds every emitted program as a real `Statements` (sympy expressions,
@@ -30,30 +30,29 @@ ADMITTED = {
 }
 
 CONSTS = {
-    # exhaustive run, simulation run (constants, num behaviours, depth)
+    # exhaustive run; thinned run = a seed-chosen random subtree of longer programs over four symbols
     "quick": (
-        dict(NSyms=3, MaxLen=3, MaxUses=2, MaxGuards=1, WithODE="TRUE", MaxFeat=3, MaxAdm=5, MinEmit=1, SampleMod=16),
-        dict(NSyms=4, MaxLen=6, MaxUses=2, MaxGuards=2, WithODE="TRUE", MaxFeat=9, MaxAdm=4, MinEmit=4, SampleMod=1),
-        600,
+        dict(NSyms=3, MaxLen=3, MaxUses=2, MaxGuards=1, WithODE="TRUE", MaxFeat=3, MaxAdm=5, MinEmit=1, MaxRmSet=2, SampleMod=16, Thin=1, FullDepth=0),
+        dict(NSyms=4, MaxLen=6, MaxUses=2, MaxGuards=2, WithODE="TRUE", MaxFeat=9, MaxAdm=4, MinEmit=5, MaxRmSet=1, SampleMod=6, Thin=64, FullDepth=1),
     ),
     "thorough": (
-        dict(NSyms=3, MaxLen=3, MaxUses=2, MaxGuards=1, WithODE="TRUE", MaxFeat=5, MaxAdm=5, MinEmit=1, SampleMod=8),
-        dict(NSyms=4, MaxLen=9, MaxUses=2, MaxGuards=3, WithODE="TRUE", MaxFeat=12, MaxAdm=5, MinEmit=4, SampleMod=1),
-        12000,
+        dict(NSyms=3, MaxLen=3, MaxUses=2, MaxGuards=1, WithODE="TRUE", MaxFeat=5, MaxAdm=5, MinEmit=1, MaxRmSet=2, SampleMod=8, Thin=1, FullDepth=0),
+        dict(NSyms=4, MaxLen=8, MaxUses=2, MaxGuards=3, WithODE="TRUE", MaxFeat=12, MaxAdm=5, MinEmit=6, MaxRmSet=1, SampleMod=6, Thin=64, FullDepth=1),
     ),
 }
 INVARIANTS = ["T0_Machine", "T1_FullExpr", "T2_DepSound", "T3_DepBounds", "T4_Remove", "T5_Reassign", "T6_Subs", "T7_Used", "EmitCase"]
 
 
-def _cfg(path, consts, seed_res):
-    lines = ["CONSTANTS"] + [f"  {k} = {v}" for k, v in consts.items()] + [f"  SampleRes = {seed_res}"]
+def _cfg(path, consts, seed):
+    lines = ["CONSTANTS"] + [f"  {k} = {v}" for k, v in consts.items()]
+    lines += [f"  SampleRes = {seed % consts['SampleMod']}", f"  ThinRes = {seed % consts['Thin']}"]
     lines += ["INIT Init", "NEXT Next"] + [f"INVARIANT {i}" for i in INVARIANTS] + ["CHECK_DEADLOCK FALSE"]
     path.write_text("\n".join(lines) + "\n")
     return path
 
 
 def _tlc_cases(tier: str, seed: int, v: core.Verdict):
-    ex_c, sim_c, nsim = CONSTS[tier]
+    ex_c, sim_c = CONSTS[tier]
     d = core.scratch("c10")
     out: dict = {}
 
@@ -64,15 +63,14 @@ def _tlc_cases(tier: str, seed: int, v: core.Verdict):
             out[tag] = e
 
     # (a) vacuity guard: small exhaustive run with -coverage (every named action must be taken)
-    cov_c = dict(ex_c, MaxLen=2, SampleMod=1000003)
+    cov_c = dict(ex_c, MaxLen=2, MinEmit=99)
+    to = 3000 if tier == "quick" else 7200
     jobs = [
-        ("cov", lambda: core.run_tlc(SPEC / "Statements.tla", _cfg(d / "cov.cfg", cov_c, 1), workers=2, timeout=900, coverage=True)),
+        ("cov", lambda: core.run_tlc(SPEC / "Statements.tla", _cfg(d / "cov.cfg", cov_c, 0), workers=2, timeout=to, coverage=True)),
         # (b) the exhaustive design-level run (no coverage instrumentation: twice as fast)
-        ("ex", lambda: core.run_tlc(SPEC / "Statements.tla", _cfg(d / "ex.cfg", ex_c, seed % ex_c["SampleMod"]), workers=12,
-                                    timeout=3000 if tier == "quick" else 7200, coverage=False)),
-        # (c) random longer programs over four symbols
-        ("sim", lambda: core.run_tlc(SPEC / "Statements.tla", _cfg(d / "sim.cfg", sim_c, 0), workers=4, timeout=3000 if tier == "quick" else 7200,
-                                     simulate=f"num={nsim}", depth=sim_c["MaxLen"] + 1, seed=seed, coverage=False)),
+        ("ex", lambda: core.run_tlc(SPEC / "Statements.tla", _cfg(d / "ex.cfg", ex_c, seed), workers=8, timeout=to, coverage=False)),
+        # (c) longer programs over four symbols: exhaustive search of a random (VERIF_SEED) subtree
+        ("sim", lambda: core.run_tlc(SPEC / "Statements.tla", _cfg(d / "sim.cfg", sim_c, seed), workers=8, timeout=to, coverage=False)),
     ]
     ths = [threading.Thread(target=run, args=j) for j in jobs]
     [t.start() for t in ths]
@@ -87,11 +85,11 @@ def _tlc_cases(tier: str, seed: int, v: core.Verdict):
             raise core.MachineryError(f"Statements.tla ({tag}): design theorem {res.violated} violated:\n" + "\n".join(res.trace[-1:])[:1500])
     core.require_actions(out["cov"], ["DoAssign", "DoGuarded", "DoOde"], "Statements.tla")
     core.tlc_stats_into(v, out["ex"])
-    v.add_coverage(states=out["sim"].generated, transitions=out["sim"].generated)
+    v.add_coverage(states=out["sim"].distinct, transitions=out["sim"].generated)
     v.add_coverage(
-        tlc_constants={"exhaustive": ex_c, "simulate": dict(sim_c, num=nsim)},
+        tlc_constants={"exhaustive": ex_c, "thinned_subtree": sim_c},
         tlc_exhaustive_programs=out["ex"].distinct,
-        tlc_simulated_states=out["sim"].generated,
+        tlc_subtree_programs=out["sim"].distinct,
         tlc_wall_s={k: round(out[k].wall, 1) for k in out},
         design_theorems_checked=INVARIANTS[:-1],
     )
@@ -427,19 +425,30 @@ def check_case(case, seed=0):
     return viol, stats, drift
 
 
+def _model_parts(E, joint):
+    """parameters / random variables / datainfo of the generic model around a program (built once per process)"""
+    key = ("parts", joint)
+    if key not in E.cache:
+        from pharmpy.model import DataInfo, JointNormalDistribution, NormalDistribution, Parameter, Parameters, RandomVariables
+
+        names = ["p1", "p2", "p3", "om_e1", "om_e2"] + (["om_e12"] if joint else [])
+        ps = Parameters.create([Parameter.create(n, 0.5) for n in names] + [Parameter.create("pfix0", 0, fix=True)])
+        if joint:
+            rvs = RandomVariables.create([JointNormalDistribution.create(["e1", "e2"], "iiv", [0, 0], [["om_e1", "om_e12"], ["om_e12", "om_e2"]])])
+        else:
+            rvs = RandomVariables.create([NormalDistribution.create("e1", "iiv", 0, "om_e1"), NormalDistribution.create("e2", "iiv", 0, "om_e2")])
+        # symbols that are read before they are assigned, the guard leaf and the dose are data columns
+        di = DataInfo.create(["x1", "amt", "q1", "t", "A", "B", "C", "D"])
+        E.cache[key] = (ps, rvs, di)
+    return E.cache[key]
+
+
 def _check_unused(E, case, sts, seed, bad, call):
-    from pharmpy.model import DataInfo, JointNormalDistribution, Model, NormalDistribution, Parameter, Parameters, RandomVariables
+    from pharmpy.model import Model
     from pharmpy.modeling import remove_unused_parameters_and_rvs
 
     joint = (seed + case["n"] + len(case["used"])) % 2 == 0
-    names = ["p1", "p2", "p3", "om_e1", "om_e2"] + (["om_e12"] if joint else []) + ["pfix0"]
-    ps = Parameters.create([Parameter.create(n, 0.5) for n in names[:-1]] + [Parameter.create("pfix0", 0, fix=True)])
-    if joint:
-        rvs = RandomVariables.create([JointNormalDistribution.create(["e1", "e2"], "iiv", [0, 0], [["om_e1", "om_e12"], ["om_e12", "om_e2"]])])
-    else:
-        rvs = RandomVariables.create([NormalDistribution.create("e1", "iiv", 0, "om_e1"), NormalDistribution.create("e2", "iiv", 0, "om_e2")])
-    # symbols that are read before they are assigned, the guard leaf and the dose are data columns
-    di = DataInfo.create(["x1", "amt", "q1", "t", "A", "B", "C", "D"])
+    ps, rvs, di = _model_parts(E, joint)
     ok, m = call(
         "remove_unused_parameters_and_rvs",
         lambda: remove_unused_parameters_and_rvs(Model.create(name="m", parameters=ps, random_variables=rvs, statements=sts, datainfo=di)),
@@ -523,7 +532,7 @@ def main(tier: str, seed: int) -> int:
         removal_queries_unspecified=tot["rm_unspecified"],
         drift_observations=ndrift,
         rule="every program TLC reaches within the constants satisfies the design theorems; a hash-sampled 1/SampleMod of the exhaustive programs "
-        "(residue = VERIF_SEED) and every distinct simulated program of length >= 4 is a case; non-trivial = length >= 2 with a reassigned symbol",
+        "(residue = VERIF_SEED) and of the longer programs in the VERIF_SEED-chosen subtree is a case; non-trivial = length >= 2 with a reassigned symbol",
         samples=[{"program": _text(c["prog"]), "values": {s["s"]: s["val"] for s in c["sym"]}} for c in work[:3]],
         exhaustive=False,
     )
